@@ -16,9 +16,11 @@ import json, os, re, shutil, subprocess, sys, time
 
 ROOT = os.path.dirname(os.path.dirname(os.path.abspath(__file__)))
 SPEC = os.path.join(ROOT, "spec")
-HARNESS = os.path.join(ROOT, "harness")
-WORK = os.path.join(ROOT, "work")
-EVID = os.path.join(ROOT, "evidence")
+# The three overrides exist for development only (evaluating seeded changes in a scratch copy of the
+# repository without touching /repo); the registered commands never set them.
+HARNESS = os.environ.get("MW_HARNESS", os.path.join(ROOT, "harness"))
+WORK = os.environ.get("MW_WORK", os.path.join(ROOT, "work"))
+EVID = os.environ.get("MW_EVID", os.path.join(ROOT, "evidence"))
 REPLAYS = os.path.join(EVID, "replays")
 JAVA_OPTS = "-Xss1g -Dtlc2.tool.queue.IStateQueue=StateDeque"
 
